@@ -364,11 +364,18 @@ class CircuitFinderSat:
                     )
                 ]
             )
-        elif first_predecessor is not None:
-            if not (gate > first_predecessor):
+        else:
+            # exactly one predecessor is given (under either keyword): it must be
+            # one of the two gates that `gate` reads.
+            predecessor = (
+                first_predecessor
+                if first_predecessor is not None
+                else second_predecessor
+            )
+            if not (gate > predecessor):
                 raise FixGateOrderError()
             for a, b in itertools.combinations(range(gate), 2):
-                if a != first_predecessor and b != first_predecessor:
+                if a != predecessor and b != predecessor:
                     self._cnf.append([-self._predecessors_variable(gate, a, b)])
 
         if gate_type:
@@ -605,10 +612,12 @@ class CircuitFinderSat:
 
             gate_tt = []
             for p, q in itertools.product(range(2), repeat=2):
+                # A gate type variable that occurs in no clause (every row is a
+                # don't-care and no operation is forbidden) is absent from the
+                # model: it is unconstrained, read it as False.
                 if self._gate_type_variable(gate, p, q) in model:
                     gate_tt.append(True)
                 else:
-                    assert -self._gate_type_variable(gate, p, q) in model
                     gate_tt.append(False)
 
             first_predecessor_str = (
